@@ -21,6 +21,7 @@ func init() {
 		ruleF8(c, "C05.F8")
 		ruleRefused(c, "C05.F9")
 		ruleF10(c, "C05.F10")
+		ruleS4(c, "C05.F11")
 		ruleW1(c, "C05.F7")
 		ruleR3(c, "C05.R3")
 		ruleR6(c, "C05.R6")
